@@ -297,6 +297,42 @@ def run(rep, tier, seed):
         lf2.__name__ = nm
         guarded(rep, f"function-name:generated:{nm}", f"link_function(f, ...) with f.__name__ = {nm!r}",
                 lambda: get_converter(A, B, recipe=[link_function(lf2, "a")])(A(1)), lambda o: o == B(101), {"name": nm})
+    # names that coincide with the numbered identifiers the converter generator hands out itself (prefix_N): the prefixes
+    # are read from the generator's source on every run
+    import decimal
+    import functools
+    import re as _re
+    from dataclasses import make_dataclass as _mk
+
+    from adaptix import P as _P
+    from adaptix.conversion import link_constant
+    gsrc = (lib.SRC / "conversion" / "broaching" / "code_generator.py").read_text()
+    prefixes = sorted(set(_re.findall(r'register_next_id\(\s*"(\w+)"', gsrc)))
+    if not prefixes:
+        rep.violation("generator-prefixes-not-found", "translator-failed",
+                      {"what": "no register_next_id(\"prefix\", ...) call found in conversion/broaching/code_generator.py"}, no_input=True)
+    SrcN = _mk("SrcN", [("a", int), ("b", int)])
+    n_numbered = 0
+    for pfx in prefixes:
+        for num in (0, 1, 2):
+            nm = f"{pfx}_{num}"
+            for order in (("f", "c", "g", "h"), ("c", "f", "g", "h"), ("g", "c", "h", "f"), ("h", "g", "f", "c")):
+                types_ = {"f": int, "c": decimal.Decimal, "g": int, "h": decimal.Decimal}
+                DstN = _mk("DstN", [(k, types_[k]) for k in order])
+
+                def named(src):
+                    return src.a + 100
+                named.__name__ = nm
+
+                def anon(src):
+                    return src.b + 7
+                anon.__name__ = f"{pfx}_{(num + 1) % 3}"     # a second function that also looks like a generated name
+                n_numbered += 1
+                guarded(rep, f"function-name:numbered:{pfx}", f"link_function(f, ...) with f.__name__ = {nm!r} next to generated {pfx}_N names",
+                        lambda: get_converter(SrcN, DstN, recipe=[
+                            link_function(named, _P[DstN].f), link_constant(_P[DstN].c, value=decimal.Decimal(1)),
+                            link_function(anon, _P[DstN].g), link_constant(_P[DstN].h, value=decimal.Decimal(2))])(SrcN(1, 2)),
+                        lambda o: (o.f, o.c, o.g, o.h) == (101, decimal.Decimal(1), 9, decimal.Decimal(2)), {"name": nm, "field_order": order})
     # ---------------------------------------------------------------- stub defaults and parameter names
     defaults = [Color.RED, object(), Evil("CANARY(2)"), Evil("1)): pass\nCANARY(10)\nif ((1"), "x'\"\n", b"\x00'", 1.5, float("inf"), None, (1,),
                 [1], {"a": 1}, Evil(""), Evil("lambda: 0"), 10 ** 30, -1, Ellipsis, int, len]
